@@ -54,7 +54,7 @@ ESC = b'\x1d'
 
 def shards(tier):
     q = tier == 'quick'
-    return [{'kind': 'interact', 'n': 80 if q else 500} for _ in range(16)]
+    return [{'kind': 'interact', 'n': 80 if q else 500} for _ in range(16)] + [{'kind': 'orphan', 'n': 6 if q else 60} for _ in range(4)]
 
 
 FILTERS = {
@@ -510,8 +510,91 @@ def check_case(case, col=None, logs=None):
         col.case(case, nt or bool(logs))
 
 
+@st.composite
+def orphan_cases(draw):
+    return {'kind': 'orphan', 'text_mode': draw(st.booleans()), 'use_poll': draw(st.booleans()),
+            'escape': draw(st.sampled_from(['default', 'none'])), 'first': draw(st.sampled_from([0.35, 0.5])),
+            'filter': draw(st.booleans())}
+
+
+def check_orphan(case, col=None):
+    """interact() "also returns when the child exits" - even when the terminal does not hang up because a
+    background job of the child (ignoring SIGHUP) keeps it open and goes on printing.  The job prints three lines
+    well after the child has gone (each one wakes the copy loop) and then waits for a flag file; interact() must
+    have returned by then, without a keystroke."""
+    import tempfile
+    import shutil
+    tmp = tempfile.mkdtemp(prefix='c15o_')
+    flag = os.path.join(tmp, 'flag')
+    f = case['first']
+    script = ("trap '' HUP; (sleep %.2f; echo late1; sleep 0.3; echo late2; sleep 0.3; echo late3; "
+              "n=0; while [ ! -e %s ] && [ $n -lt 200 ]; do sleep 0.05; n=$((n+1)); done; echo released) & echo bye; sleep 0.1"
+              % (f, flag))
+    um, us = os.openpty()
+    child = None
+    try:
+        distinctive_mode(us)
+        with StdoutSwap(us):
+            kw = {'timeout': 20, 'use_poll': case['use_poll']}
+            if case['text_mode']:
+                kw['encoding'] = 'utf-8'
+            child = pexpect.spawn('/bin/sh', ['-c', script], **kw)
+            child.STDIN_FILENO = us
+            child.STDOUT_FILENO = us
+            result = {}
+
+            def run():
+                try:
+                    child.interact(escape_character=(None if case['escape'] == 'none' else chr(29)),
+                                   output_filter=((lambda b: b) if case['filter'] else None))
+                    result['ok'] = True
+                except BaseException as e:      # noqa
+                    result['exc'] = e
+            th = threading.Thread(target=run, daemon=True)
+            t0 = time.time()
+            th.start()
+            seen = []
+            join_draining(th, um, seen, 4.0)
+            el = time.time() - t0
+            returned = not th.is_alive()
+            open(flag, 'w').close()                 # release the background job in any case
+            if not returned:
+                join_draining(th, um, seen, 15)
+            shown = b''.join(seen)
+            if 'exc' in result:
+                raise Violation('interact-raised:orphan', 'interact() raised %r' % (result['exc'],))
+            if not returned:
+                raise Violation('interact-did-not-return', 'interact() had not returned 4 s after the child exited although its '
+                                'background job printed three lines in that time (shown so far: %r)' % shown[-60:])
+            if b'bye' not in shown:
+                raise Violation('output-not-transparent', 'the child\'s own output is missing: %r' % shown[:60])
+    finally:
+        try:
+            open(flag, 'w').close()
+        except OSError:
+            pass
+        if child is not None:
+            peers.reap(child)
+        for fd in (um, us):
+            try:
+                os.close(fd)
+            except OSError:
+                pass
+        time.sleep(0.12)        # the released job sees the flag and leaves
+        shutil.rmtree(tmp, ignore_errors=True)
+    if col is not None:
+        col.label('child-exits-terminal-stays-open')
+        col.case(case, True)
+
+
 def run_shard(spec, seed, idx, deadline_ts):
     col = Collector()
+    if spec.get('kind') == 'orphan':
+        def obody(case, c):
+            with case_watchdog(60, 'C15 interact, child exits, terminal stays open'):
+                check_orphan(case, c)
+        run_batches(obody, orphan_cases(), spec['n'], seed * 1000 + idx, col, batch=10, shrink=False, deadline_ts=deadline_ts)
+        return col
 
     def body(case, c):
         with case_watchdog(150, 'C15 interact session'):
@@ -536,6 +619,8 @@ def replay_logging(case):
 
 
 def replay(case, spec=None):
+    if case.get('kind') == 'orphan':
+        return check_orphan(case)
     check_case(case, logs=case.get('logs'))
 
 
